@@ -293,6 +293,12 @@ def c03(run):
                 "transliteration must be a candidate modulo curling: class strings to length %d and EVERY string over the 94 typeable characters "
                 "to length %d, and every run of punctuation / symbol characters around at most one letter or digit to length %d.  Non-trivial = every scenario "
                 "with at least one transliteration comparison." % (wl, al, cl, 3 if q else 4))
+    # impl -> spec: "the transliteration is always one of the candidates" on the real-data corpus of the candidate driver (dictionary-guided
+    # spellings, auto-correct keys, suffixed and wrapped words, 4 option sets incl. ANSI): lists with many dictionary hits
+    tlc, s = run_record_validate(run, "cands", "cands", "Trace_Cands.tla", "C03", "translit", 1, shards=12 if q else 16, focus="C03", unit="event", timeout=3000)
+    run.add(tlc, s)
+    run.rule += ("  ||  impl -> spec: the candidate corpus of C07 (dictionary-guided spellings, auto-correct keys, suffixed and wrapped words, emoticons, "
+                 "names; English / smart quotes / ANSI option sets) validated against Trace_Cands with Focus=C03 (PropHasTranslit on every list)")
     run.assumptions += ["the transliteration function itself is the okkhor public parser (oracle named by the statement)",
                         "class uniformity is tested by the swept/random variants, not assumed; for non-wrapped strings the split of the transcript is the definition"]
 
@@ -473,7 +479,7 @@ def c10(run):
                 "update-engine}, checks Robust / LoadedIsOnDisk / LosesAtMostNew / SaveLeavesValid on the model and emits every scenario; the harness "
                 "concretises torn as EVERY proper byte prefix of a store the engine itself wrote (all crash points of the non-atomic save), wrongshape as a "
                 "16-document corpus (array, number, null, nested/non-string values, invalid UTF-8, BOM, trailing comma, blank), emptyentries as 5 documents, "
-                "missing/blocked directory (path occupied by a regular file); no event may panic, a context over unreadable content must render 6 probe words "
+                "missing/blocked directory (path occupied by a regular file); no event may panic, a context over unreadable content must render 7 probe words "
                 "(incl. suffix forms) exactly like one started with the files absent, a choice whose save failed must still be preselected in the same context, "
                 "a completed save must leave a loadable file.  Non-trivial = scenarios with at least one differential or persistence comparison." % n)
     run.assumptions += ["complete prefix/corpus sweep once per environment and worker thread, rotating samples of 4 concretisations for further event sequences over it",
